@@ -66,6 +66,19 @@ Fixpoint fl_tops (scs : list (list nop)) (next : nat) : list act * list act * na
   end.
 Definition flatten (scs : list (list nop)) : prog := let '(tops, ds, _) := fl_tops scs (length scs) in tops ++ ds.
 
+(* ---------- well-ordered recursive programs: every object exists, and a nested operation goes to an object strictly above the
+   object of the operation whose body it is in ---------- *)
+Definition nop_q (o : nop) : nat := match o with NDesync q _ | NSync q _ | NTrySync q _ => q end.
+Definition nop_body (o : nop) : list nop := match o with NDesync _ b | NSync _ b | NTrySync _ b => b end.
+Fixpoint wo_op (nq : nat) (lo : option nat) (o : nop) {struct o} : Prop :=
+  let all := fix all (q : nat) (sc : list nop) {struct sc} : Prop :=
+    match sc with [] => True | o' :: r => wo_op nq (Some q) o' /\ all q r end in
+  match o with
+  | NDesync q body | NSync q body | NTrySync q body =>
+      q < nq /\ match lo with Some b => b < q | None => True end /\ all q body
+  end.
+Definition wo (nq : nat) (scs : list (list nop)) : Prop := Forall (Forall (wo_op nq None)) scs.
+
 (* ---------- well-formed (flattened) programs ---------- *)
 Definition kid_at (P : prog) (a i : nat) : option nat := act ← P !! a; k ← act.(a_kids) !! i; k.
 Definition all_kids (P : prog) : list nat := P ≫= (fun act => omap id act.(a_kids)).
